@@ -1,5 +1,122 @@
-(* C34 — placeholder while the pipeline is brought up; theorems follow. *)
-From FH Require Import Model.Base Model.Body Model.BodyWrite.
+(* C34 — Body streams deliver exact bytes and are closed exactly once.
+   Statements only; proofs live in Proof/BodyProof.v, Proof/BodyWriteProof.v, Proof/StreamLifeProof.v. *)
+From FH Require Import Model.Base Gen.GenC30 Gen.GenC34 Model.Ints Model.Body Model.BodyWrite Model.StreamLife
+     Proof.BodyProof Proof.BodyWriteProof Proof.StreamLifeProof.
 Open Scope Z_scope.
-Example C34_ex_enc : enc_chunked_message [s2b "hello"] = s2b "5" ++ [13;10]%N ++ s2b "hello" ++ [13;10;48;13;10;13;10]%N.
-Proof. vm_compute. reflexivity. Qed.
+
+(* The chunked reader inverts the chunked writer for EVERY split of a body into chunks:
+   any number of chunks, each non-empty, of any size below the hex-size limit (16^15), with
+   arbitrary bytes (e.g. the next message) behind the last-chunk line; built on the
+   hexadecimal round trip of C30.  L is the reader's limit (<= 0: none); the total must be
+   allocatable (runtime.maxAlloc = 2^48).  peak = largest buffer length requested. *)
+Theorem C34_chunked_codec : forall (chunks : list bytes) (L : Z) (rest : bytes),
+  Forall (fun c => c <> [] /\ wf_bytes c /\ blen c < 16 ^ maxHexIntChars64) chunks -> wf_bytes rest ->
+  (L <= 0 \/ blen (concat chunks) <= L) -> blen (concat chunks) + 2 <= maxAlloc ->
+  exists peak, readBodyChunked L [] (enc_chunks chunks ++ rest) = BOk (concat chunks) rest peak
+               /\ peak <= blen (concat chunks) + 2.
+Proof. exact chunked_codec. Qed.
+Print Assumptions C34_chunked_codec.
+
+(* the same with chunk extensions on every chunk and on the last-chunk line *)
+Theorem C34_chunked_codec_ext : forall cs fuel max dst elast rest pk,
+  Forall chunk_good cs -> ext_good elast -> wf_bytes rest ->
+  (length (enc_chunks_ext cs elast ++ rest) < fuel)%nat ->
+  (max <= 0 \/ blen dst + total cs <= max) -> blen dst + total cs + 2 <= maxAlloc ->
+  exists pk', rbc_loop fuel max dst (enc_chunks_ext cs elast ++ rest) pk = BOk (dst ++ concat (map fst cs)) rest pk'
+              /\ pk <= pk' <= Z.max pk (blen dst + total cs + 2).
+Proof. exact rbc_enc. Qed.
+Print Assumptions C34_chunked_codec_ext.
+
+(* the complete chunked message (empty trailer section) through Request and Response body reading *)
+Theorem C34_chunked_message_codec : forall parseTr (chunks : list bytes) (L : Z) (rest : bytes),
+  Forall (fun c => c <> [] /\ wf_bytes c /\ blen c < 16 ^ maxHexIntChars64) chunks -> wf_bytes rest ->
+  (L <= 0 \/ blen (concat chunks) <= L) -> blen (concat chunks) + 2 <= maxAlloc ->
+  exists peak, reqReadBody parseTr (-1) L (enc_chunked_message chunks ++ rest) = BOk (concat chunks) rest peak /\
+               respReadBody parseTr (-1) L 0 [] (enc_chunked_message chunks ++ rest) = BOk (concat chunks) rest peak.
+Proof. exact chunked_message_codec. Qed.
+Print Assumptions C34_chunked_message_codec.
+
+(* Fixed size: the declared size equals what the stream yields, the stream answers Read calls
+   with any positive amounts (script of OData / ODataEOF, any bufio.Writer size, header flush
+   or not), the target is healthy => Write succeeds, closes the stream, and the wire is
+   header ++ exactly the stream's bytes.
+   (Streams returning (0, nil) are covered for the chunked path below; on this path bufio.Writer.ReadFrom
+   gives up with io.ErrNoProgress after 100 of them in a row — modelled, exercised by the harness.) *)
+Theorem C34_wire_equals_stream_fixed : forall k size hdr trailer flush s, 0 < size ->
+  Forall data_op (ss_script s) -> (k = KBytesReader -> ss_script s = []) ->
+  let out := respWriteBodyStream k hdr trailer (blen (ss_data s)) true flush (bw_new size (-1)) s in
+  ws_res out = WOk /\ ws_closed out = true /\ bw_wire (ws_w out) = hdr ++ ss_data s.
+Proof. exact wire_fixed. Qed.
+Print Assumptions C34_wire_equals_stream_fixed.
+
+(* Unknown size: for ANY read pattern (amounts, (0,nil) reads, EOF with or without data) the wire is
+   header ++ a chunked encoding of some split of the stream's bytes into non-empty chunks ++ trailer *)
+Theorem C34_wire_equals_stream_chunked : forall k size hdr trailer cl flush s, 0 < size -> cl < 0 ->
+  Forall quiet_op (ss_script s) -> blen (ss_data s) < 16 ^ maxHexIntChars64 -> (k = KBytesReader -> ss_script s = []) ->
+  let out := respWriteBodyStream k hdr trailer cl true flush (bw_new size (-1)) s in
+  ws_res out = WOk /\ ws_closed out = true /\
+  exists cs, concat cs = ss_data s /\ Forall (fun c => c <> []) cs /\ bw_wire (ws_w out) = hdr ++ enc_chunks cs ++ trailer.
+Proof. exact wire_chunked. Qed.
+Print Assumptions C34_wire_equals_stream_chunked.
+
+(* ... and the peer's reader turns that wire back into the stream's bytes, leaving `rest` unread *)
+Theorem C34_stream_roundtrip : forall k size hdr cl flush s rest parseTr, 0 < size -> cl < 0 ->
+  Forall quiet_op (ss_script s) -> (k = KBytesReader -> ss_script s = []) ->
+  wf_bytes (ss_data s) -> wf_bytes rest -> blen (ss_data s) + 2 <= maxAlloc ->
+  let out := respWriteBodyStream k hdr strCRLF cl true flush (bw_new size (-1)) s in
+  exists wire_body pk, bw_wire (ws_w out) = hdr ++ wire_body /\
+    respReadBody parseTr (-1) 0 0 [] (wire_body ++ rest) = BOk (ss_data s) rest pk /\
+    reqReadBody parseTr (-1) 0 (wire_body ++ rest) = BOk (ss_data s) rest pk.
+Proof. exact chunked_stream_roundtrip. Qed.
+Print Assumptions C34_stream_roundtrip.
+
+(* Exactly once.  For a Request or a Response and EVERY sequence of operations (SetBodyStream,
+   SetBody/AppendBody, ResetBody, Reset/Release, CloseBodyStream, Write and Body()/SwapBody/
+   BodyWriteTo with success, error or a panicking Read, compression wrapping, the compressor
+   goroutine finishing at any point, serveConn's keep-alive handling of the request stream):
+   no stream is closed twice, a stream that is not an io.Closer never, and every io.Closer stream
+   that is no longer attached has been closed exactly once. *)
+Theorem C34_close_exactly_once : forall k ops st, lrun k ls_init ops = Some st ->
+  forall i r, nth_error (ls_streams st) i = Some r ->
+    (si_count r <= 1)%N /\
+    (si_closer r = false -> si_count r = 0%N) /\
+    (si_closer r = true -> ls_att st <> Some i -> si_count r = 1%N).
+Proof. exact close_exactly_once. Qed.
+Print Assumptions C34_close_exactly_once.
+
+(* written (without panic), reset, released, body replaced: nothing stays attached, so by the
+   theorem above every io.Closer stream has been closed exactly once at that point; after a panic
+   the stream stays attached and the next such operation closes it *)
+Theorem C34_settled_detached : forall k st o st', settles o -> lstep k st o = Some st' -> ls_att st' = None.
+Proof. exact settled_detached. Qed.
+Print Assumptions C34_settled_detached.
+
+(* the model loops never run out of fuel *)
+Theorem C34_chunked_reader_total : forall max dst b, readBodyChunked max dst b <> BOutOfFuel.
+Proof. exact readBodyChunked_no_fuel. Qed.
+Print Assumptions C34_chunked_reader_total.
+
+(* non-vacuity *)
+Example C34_ex_codec :
+  enc_chunked_message [s2b "hello"; s2b "w"] = s2b "5" ++ [13;10]%N ++ s2b "hello" ++ [13;10]%N ++ s2b "1" ++ [13;10]%N ++ s2b "w" ++ [13;10;48;13;10;13;10]%N
+  /\ readBodyChunked 6 [] (enc_chunks [s2b "hello"; s2b "w"] ++ s2b "NEXT") = BOk (s2b "hellow") (s2b "NEXT") 8
+  /\ readBodyChunked 5 [] (enc_chunks [s2b "hello"; s2b "w"] ++ s2b "NEXT") = BErr EBodyTooLarge (s2b "hello") 7.
+Proof. vm_compute. repeat split; reflexivity. Qed.
+Example C34_ex_write :
+  let out := respWriteBodyStream KReader (s2b "H") [13;10]%N (-1) true false (bw_new 4 (-1)) (mkSS (s2b "abcdef") [OData 4; OZero; ODataEOF 9]) in
+  ws_res out = WOk /\ ws_closed out = true /\ bw_wire (ws_w out) = s2b "H" ++ enc_chunks [s2b "abcd"; s2b "ef"] ++ [13;10]%N.
+Proof. vm_compute. repeat split; reflexivity. Qed.
+Example C34_ex_panic_then_reset :
+  match lrun MResp ls_init [LSetBodyStream true; LWrite FPanic] with
+  | Some st => ls_attached st = true /\ ls_counts st = [0%N]
+  | None => False end
+  /\ match lrun MResp ls_init [LSetBodyStream true; LWrite FPanic; LReset] with
+     | Some st => ls_attached st = false /\ ls_counts st = [1%N]
+     | None => False end
+  /\ match lrun MReq ls_init [LSetBodyStream true; LServerDrop; LReset] with
+     | Some st => ls_attached st = false /\ ls_counts st = [1%N]
+     | None => False end
+  /\ match lrun MResp ls_init [LSetBodyStream true; LWrap; LGoDone 0; LWrite FErr] with
+     | Some st => ls_counts st = [1%N]
+     | None => False end.
+Proof. vm_compute. repeat split; reflexivity. Qed.
